@@ -16,6 +16,16 @@ class UserError(Exception):
         self.tag = tag
 
 
+class AbortOutcome(BaseException):
+    """An outcome that derives from BaseException only (like asyncio.CancelledError, SystemExit, a user's own abort
+    signal): for the futures machinery an exception like any other - concurrent.futures records it, the library must
+    propagate it."""
+
+    def __init__(self, tag):
+        BaseException.__init__(self, "abort %s" % (tag,))
+        self.tag = tag
+
+
 class OtherError(Exception):
     """Exception outside the retry policy's exception_base."""
 
@@ -39,7 +49,8 @@ def export(events):
 
 class Scripted(object):
     """A callable standing for submission `sub`.  script: list of outcomes per invocation:
-    ("V", value) | ("E", tag) retryable exception | ("F", tag) other exception.  The last entry repeats.
+    ("V", value) | ("E", tag) retryable exception | ("F", tag) other exception | ("B", tag) an exception deriving from
+    BaseException only.  The last entry repeats.
     dur: virtual duration in ticks of each invocation (list or int).  hook(k) is called inside the call."""
 
     def __init__(self, sub, script, dur=0, hook=None, site="call"):
@@ -68,7 +79,7 @@ class Scripted(object):
         if kind == "V":
             E.emit("InvokeEnd", f=self.sub, k=k, a=0, b=s.ident_val(val), s=self.site)
             return val
-        exc = UserError(val) if kind == "E" else OtherError(val)
+        exc = UserError(val) if kind == "E" else (AbortOutcome(val) if kind == "B" else OtherError(val))
         self.excs.append(exc)
         E.emit("InvokeEnd", f=self.sub, k=k, a=1 if kind == "E" else 2, b=s.ident(exc, "val"), s=self.site)
         raise exc
